@@ -378,6 +378,12 @@ func (s *gridScreen) mergeIntoPreviousCell(text string) {
 		x--
 	}
 	s.cellText[y][x] += text
+
+	width := int(s.cellWidth[y][x])
+	if width < 1 {
+		width = 1
+	}
+	s.frontend.RegionChanged(Region{Y: y, Y2: y + 1, X: x, X2: min(x+width, s.size.X)}, CRText)
 }
 
 // This is like writeRunes, but it moves existing runes to the right
